@@ -321,6 +321,21 @@ pub fn run(cfg: &RunCfg) -> (PropMeta, ShardOut, Map<String, Value>) {
     let per_img = (n_img as usize + cfg.threads - 1) / cfg.threads;
     let out = shards(cfg.threads, |shard| {
         let mut out = ShardOut::default();
+        // special cases: string operands whose balanced parentheses nest up to and beyond the depth the writer
+        // leaves unescaped (the reader's bracket limit): writer and reader have to agree at the boundary
+        if shard == 0 {
+            for depth in [1usize, 50, 98, 99, 100, 101, 102, 150] {
+                let mut body = vec![b'('; depth];
+                body.push(b'x');
+                body.extend(vec![b')'; depth]);
+                let ops = vec![Op { operator: "BT".into(), operands: vec![] }, Op { operator: "Tj".into(), operands: vec![RObj::Str(body, false)] }, Op { operator: "ET".into(), operands: vec![] }];
+                out.evaluations += 1;
+                out.count("deep_parenthesis_operands");
+                if let Some(msg) = check_ops(&ops) {
+                    out.finding(Finding { signature: format!("C14/operand/string-literal/balanced-paren-depth-{}", if depth <= 100 { "within-limit" } else { "beyond-limit" }), what: format!("decode(encode(ops)) != ops for parentheses nested {} deep: {}", depth, msg), witness: json!({"kind":"ops","ops":ops_to_json(&ops)}) });
+                }
+            }
+        }
         for i in 0..per {
             let mut r = Rng::for_case(cfg.seed, TAG, shard as u64, i as u64);
             let ops = gen_ops(&mut r);
